@@ -669,6 +669,10 @@ export class TypeofRuntype extends BaseRuntype {
   }
 
   protected describeTypeExpr(_ctx: DescribeContext): string {
+    // the compiler also emits "function" (any function type): print a function type, `function` is not a type
+    if ((this.typeName as string) === "function") {
+      return "((...args: any[]) => any)";
+    }
     return this.typeName;
   }
   schema(_ctx: SchemaContext): JSONSchema7 {
